@@ -30,9 +30,9 @@ F = Fraction
 UNARY = ['inv', 'neg', 'reverse', 'involute', 'conjugate', 'sqrt', 'polarity', 'unpolarity', 'hodge', 'unhodge', 'normsq',
          'outerexp', 'outersin', 'outercos', 'outertan']
 BINARY = ['gp', 'sw', 'cp', 'acp', 'ip', 'sp', 'lc', 'rc', 'op', 'rp', 'proj', 'add', 'sub', 'div']
-EXTRA = ['pow3', 'norm', 'normalized', 'dual', 'exp', 'regnum', 'regsym', 'pow-2']
+EXTRA = ['pow3', 'norm', 'normalized', 'dual', 'exp', 'regnum', 'regsym', 'pow-2', 'regnum2']
 FORMS = BINARY + UNARY + EXTRA
-DIRECT = set(BINARY + UNARY + ['regnum', 'regsym', 'dual'])
+DIRECT = set(BINARY + UNARY + ['regnum', 'regsym', 'dual', 'regnum2'])
 TYPES = ['int', 'float', 'Fraction', 'complex', 'ndarray', 'listarr', 'sympy', 'mixed']
 PATTERNS = {'A': 'even', 'B': 'vector'}
 
@@ -64,12 +64,12 @@ class Probe:
         # function and caches nothing; only completed generations are events
         def counting_codegen(codegen, *mvs):
             out = orig_codegen(codegen, *mvs)
-            probe.events.append((getattr(codegen, '__name__', '?'), tuple(tuple(m.keys()) for m in mvs)))
+            probe.events.append((probe.label(codegen), tuple(tuple(m.keys()) for m in mvs)))
             return out
 
         def counting_docompile(codegen, *tapes):
             out = orig_docompile(codegen, *tapes)
-            probe.events.append(('compile:' + getattr(codegen, '__name__', '?'), tuple(tuple(t.keys()) for t in tapes)))
+            probe.events.append(('compile:' + probe.label(codegen), tuple(tuple(t.keys()) for t in tapes)))
             return out
         builtins.compile = counting_compile
         od.do_codegen = counting_codegen
@@ -78,6 +78,16 @@ class Probe:
 
     def uninstall(self):
         builtins.compile, self._od.do_codegen, self._od.do_compile = self._orig
+
+    def label(self, codegen):
+        """Operator identity: name plus a serial number per distinct codegen object (two user expressions may share a name)."""
+        n = getattr(codegen, '__name__', '?')
+        ids = self.__dict__.setdefault('_ids', {})
+        lst = ids.setdefault(n, [])
+        if not any(c is codegen for c in lst):
+            lst.append(codegen)
+        k = next(i for i, c in enumerate(lst) if c is codegen)
+        return n if k == 0 else f'{n}#{k + 1}'
 
     def mark(self):
         return len(self.events), self.compiles
@@ -116,7 +126,11 @@ def make_world(algname):
 
     def rs(a, b):
         return (a ^ b) - a
+    def rn2(a, b):
+        return a * b - (a | b)
+    rn2.__name__ = 'rn'          # a second registered expression that happens to have the same name (e.g. redefined in a loop)
     w['regnum'] = alg.register(rn)
+    w['regnum2'] = alg.register(rn2)
     w['regsym'] = alg.register(symbolic=True)(rs)
     return w
 
@@ -150,6 +164,8 @@ def do_call(w, form, pattern, kind, salt):
         return w['regnum'](x, y)
     if form == 'regsym':
         return w['regsym'](x, y)
+    if form == 'regnum2':
+        return w['regnum2'](x, y)
     raise ValueError(form)
 
 
